@@ -688,7 +688,10 @@ class FileSystemSource(DataSource):
             # the same type.)
             is_versioned = "modified" in all_data[0]
             if is_versioned:
-                stix_obj = sorted(all_data, key=lambda k: k['modified'])[-1]
+                stix_obj = sorted(
+                    all_data,
+                    key=lambda k: parse_into_datetime(k['modified']),
+                )[-1]
             else:
                 stix_obj = all_data[0]
         else:
